@@ -97,7 +97,10 @@ class Concrete(object):
             d = {nm: self.case_vals[nm][v - 1] for nm, v in zip(self.case_names, c)}
             if as_dict and self.variant.get("case_key_order") and len(out) % 2 == 1:
                 d = dict(reversed(list(d.items())))       # same case, keys written in another order
-            out.append(d if as_dict else tuple(d[nm] for nm in self.case_names))
+            if not as_dict and len(self.case_names) == 1 and self.variant.get("bare_cases"):
+                out.append(d[self.case_names[0]])          # fn_args='w', cases=(v1, v2, ...): values not wrapped in tuples
+            else:
+                out.append(d if as_dict else tuple(d[nm] for nm in self.case_names))
         return out
 
 
@@ -507,7 +510,7 @@ def replay_case(case, variant):
         with ForcedShuffle(case["order"] if cfg["shuffle"] and not cfg["overlap"] else [1]) as fs:
             if kind in ("nested", "flat"):
                 if entry == "case_runner" and cfg["nca"] and kind == "flat":
-                    res = car.case_runner(fn, conc.case_names, cases_t,
+                    res = car.case_runner(fn, conc.case_names[0] if (len(conc.case_names) == 1 and variant.get("bare_cases")) else conc.case_names, cases_t,
                                           combos=combos, constants={**conc.resources, **consts}, split=split, **opts)
                 else:
                     res = cr.combo_runner(fn, combos, cases=cases, constants={**conc.resources, **consts} or None,
@@ -740,7 +743,7 @@ def variants_for(case, idx, prop, n_variants):
         v = dict(values=VALUE_FLAVOURS[(k + j) % 4], spelling=SPELLINGS[(k // 2 + j) % 3],
                  exec=EXEC_STYLES[(k + j) % 3], seed=[True, 3, 11][(k + j) % 3],
                  cases_as_dict=(k % 2 == 0), noshuffle=[False, 0][(k // 3) % 2], case_key_order=(k % 3 == 1),
-                 dupkind=k % 3, decoy=(k % 2 == 1))
+                 dupkind=k % 3, decoy=(k % 2 == 1), bare_cases=(k % 4 < 2))
         if cfg["kind"] in ("nested", "flat"):
             kinds = RESULT_KINDS_CASES if cfg["nca"] else RESULT_KINDS_GRID
             v["result"] = kinds[(k + j) % len(kinds)]
